@@ -12,6 +12,7 @@ import (
 	"strconv"
 	"strings"
 	"sync"
+	"time"
 )
 
 // ---------------------------------------------------------------------------
@@ -1016,6 +1017,33 @@ func c15Oracle(c *oracleCtx) {
 			})
 		}
 	}
+	runtime.GOMAXPROCS(4)
+	c.check("nested-async", true, func() string {
+		// an async call inside an async callback must still terminate (no bounded worker pool)
+		outer := NewList()
+		for i := 0; i < 8*runtime.GOMAXPROCS(0); i++ {
+			outer.Add(NewList(1, 2, 3))
+		}
+		done := make(chan int, 1)
+		go func() {
+			var mu sync.Mutex
+			n := 0
+			outer.ForEachAsync(func(_ int, v any) {
+				v.(List).ForEachAsync(func(int, any) { mu.Lock(); n++; mu.Unlock() })
+				_ = v.(List).MapAsync(func(i int, x any) any { return x })
+			})
+			done <- n
+		}()
+		select {
+		case n := <-done:
+			if n != 3*outer.Count() {
+				return fmt.Sprintf("nested ForEachAsync made %d calls, want %d", n, 3*outer.Count())
+			}
+		case <-time.After(8 * time.Second):
+			return "nested ForEachAsync did not return within 8s"
+		}
+		return ""
+	})
 	runtime.GOMAXPROCS(8)
 	c.check("readers", true, func() string {
 		for r := 0; r < reps; r++ {
